@@ -18,6 +18,8 @@ More == { At(<<0,1>>), At(<<255,127>>), At(<<0,255,255>>), At(<<127,255,255>>), 
           At(<<3,255,255,255>>), At(<<4,0,0,0>>), At(<<127,255,255,255,255,255,255,255>>),
           At(<<0,255,255,255,255,255,255,255,255>>), [f |-> At(<<1>>), r |-> At(<<>>)] }
 Wide == Core \cup More
+\* long atoms (length-valued results cross a byte boundary at 128 and 256): only as single arguments
+LongAtoms == { At([i \in 1..n |-> 1]) : n \in {127, 128, 255, 256} }
 Tiny == { At(<<>>), At(<<1>>), At(<<127,0>>), At(<<0,255>>), At(<<255>>), At(<<0>>), [f |-> At(<<1>>), r |-> At(<<>>)] }
 A3 == IF Tier = "thorough" THEN Wide ELSE Tiny
 A2 == IF Tier = "thorough" THEN Wide ELSE Core \cup { At(<<0,1>>), At(<<3,255,255,255>>), At(<<4,0,0,0>>), [f |-> At(<<1>>), r |-> At(<<>>)] }
@@ -27,7 +29,7 @@ Variadic == {11, 14, 16, 17, 18, 24, 25, 26, 33, 34, 8}
 
 ArgLists(o) ==
   LET l0 == { << >> }
-      l1 == { << x >> : x \in Wide }
+      l1 == { << x >> : x \in Wide \cup LongAtoms }
       l2 == { << x, y >> : x \in A2, y \in A2 }
       l3 == { << x, y, z >> : x \in A3, y \in A3, z \in A3 }
   IN  IF o \in Variadic \/ o \in {3, 12, 60, 48} THEN l0 \cup l1 \cup l2 \cup l3
